@@ -925,7 +925,7 @@ impl Runner {
                 if let Some((qb, q)) = &parsed.question {
                     if r.echo != Some(true) {
                         fails.push(("response does not carry the request's question".into(), ""));
-                    } else if qb.len() != q.name.iter().map(|l| l.len() + 1).sum::<usize>() + 5 {
+                    } else if qb[..qb.len() - 4] != wire_name(&labels_of(&q.name))[..] {
                         // compressed question name (pointer into the header), echoed byte for byte:
                         // does it still *mean* the same question inside the response?
                         rec.stat("question.compressed");
